@@ -2184,7 +2184,7 @@ def r06_17(ctx):
                     "the option is 16 octets long and its last 6 octets keep the previous buffer content (they are covered by the ICMPv6 checksum and go out on the wire)", body=em)
 
 
-@rule('R05.12', ['C05', 'C04', 'C01'], floor=1, clause='the TCP option loop of the segment parser ends only at the end of the option area, at an end-of-list option or on a malformed option: an option of unknown kind is skipped, so MSS / window scale / SACK-permitted / timestamps placed behind it are still honoured')
+@rule('R05.12', ['C05', 'C04', 'C01'], floor=1, clause='the TCP option loop of the segment parser ends only at the end of the option area, at an end-of-list option or on a malformed option - and does end at an end-of-list option: an option of unknown kind is skipped, so MSS / window scale / SACK-permitted / timestamps placed behind it are still honoured, while padding behind the end-of-list is not read as options')
 def r05_12(ctx):
     from ..loops import loops
     from ..wirelib import ok_sites
@@ -2221,6 +2221,18 @@ def r05_12(ctx):
             ctx.bad("tcp::Repr::parse|option-loop-left-early", "the option loop of tcp::Repr::parse can be left for an option that is neither the end-of-list nor malformed (an unknown kind): "
                     "every option behind it - MSS, window scale, SACK-permitted, timestamps - is ignored, so e.g. the default MSS 536 is used against a peer that announced less", body=b, bb=u)
     ctx.need(n >= 1, "exits of the option loop")
+    # converse: the end-of-list option does end the loop (what follows it is padding, not options)
+    eol_edges = guard_edges(F, b, lambda f: f[0] == 'is' and f[2] == 'EndOfList')
+    ctx.need(eol_edges, "the EndOfList arm of the option loop")
+    for (bi, tb, lab) in eol_edges:
+        if bi not in nodes:
+            continue
+        back = b.reachable(start=tb)
+        if h in back:
+            ctx.bad("tcp::Repr::parse|end-of-list-does-not-end", "after an end-of-list option the option loop of tcp::Repr::parse goes on: the padding octets behind it are parsed as options and can "
+                    "replace the MSS / window scale the peer really announced", body=b, bb=bi)
+        else:
+            ctx.ok(('tcp::Repr::parse', 'EndOfList ends the loop'), sample=dict(arm='TcpOption::EndOfList', leaves='the option loop'))
 
 
 @rule('R06.18', ['C06', 'C18'], floor=8, clause='DHCPv4: every optional field that emit turns into an option is counted by buffer_len() under a test of that same field (the two lists of options agree field by field)')
@@ -3029,3 +3041,219 @@ def r02_15(ctx):
                 "and Interface::poll never returns", body=b, bb=worst[0], path=worst[2])
     else:
         ctx.ok(('process', 'probe timer stops with the data'), sample=dict(fn='tcp::Socket::process', when='tx_buffer.is_empty()', then='probe timer replaced (idle / retransmission)'))
+
+
+@rule('R02.16', ['C02', 'C13'], floor=1, clause='send() into a closed peer window arms the zero-window-probe timer in every state in which send() accepts data (ESTABLISHED and CLOSE-WAIT alike): between may_send() and the arming no further test of the connection state is made')
+def r02_16(ctx):
+    F = ctx.F
+    b = ctx.method(SOCK, 'send_impl')
+    sites = [x[0] for x in b.calls() if (b.callee_name(x[1]) or '').endswith('Timer::set_for_zero_window_probe')]
+    ctx.need(sites, "set_for_zero_window_probe in tcp send_impl")
+    bad = None
+    for bi, bl in enumerate(b.blocks):
+        if bl['cl'] or bl['t'][0] != 'switch':
+            continue
+        for tb, lab, f in cond_facts(F, b, bi):
+            ls = set()
+            for x in f[1:]:
+                if isinstance(x, tuple) and x and isinstance(x[0], str):
+                    ls |= leafs(x)
+            if not any(l.endswith('tcp::Socket.state') for l in ls):
+                continue
+            seen = b.reachable(cut_edges={(bi, tb, lab)})
+            alive_other = [e for e in b.succ_edges(bi) if e[0] != tb]
+            if any(s not in seen for s in sites):
+                bad = bi
+    if bad is not None:
+        ctx.bad("tcp::send_impl|probe-timer-state-dependent", "send_impl arms the zero-window-probe timer only in some of the states in which it accepts data: bytes queued into a closed window in the "
+                "other state (CLOSE-WAIT) leave the timer idle - poll_at answers Ingress, no probe is ever sent and a lost window update stalls the connection for good", body=b, bb=bad)
+    else:
+        ctx.ok(('send_impl', 'probe timer armed in every sending state'), sample=dict(fn='tcp::Socket::send_impl', arms='zero-window-probe timer', under='remote_win_len == 0 && timer.is_idle()'))
+
+
+def _nodes(n, pred, out=None, seen=None):
+    out = [] if out is None else out
+    seen = set() if seen is None else seen
+    if not isinstance(n, tuple) or not n or id(n) in seen:
+        return out
+    seen.add(id(n))
+    if isinstance(n[0], str) and pred(n):
+        out.append(n)
+    for c in n[1:]:
+        if isinstance(c, tuple):
+            if c and isinstance(c[0], str):
+                _nodes(c, pred, out, seen)
+            else:
+                for d in c:
+                    _nodes(d, pred, out, seen)
+    return out
+
+
+@rule('R06.19', ['C06', 'C05', 'C10'], floor=5, clause='tcp::Repr::header_len reserves for every option exactly what TcpOption::buffer_len says that option occupies: the fixed sizes (MSS 4, window scale 3, SACK-permitted 2, timestamps 10) and, for SACK blocks, the 2-octet kind/length header on top of the blocks')
+def r06_19(ctx):
+    F = ctx.F
+    h = ctx.method('wire::tcp::Repr', 'header_len')
+    o = ctx.method('wire::tcp::TcpOption', 'buffer_len')
+    ro = strip(simplify(ret_origin(F, o)))
+    fixed, sack_const = set(), None
+    for a in alts(ro):
+        c = const_of(a)
+        if c is not None:
+            fixed.add(c)
+        elif any('SackRange' in l for l in leafs(a)):
+            sack_const = lin(a)[1]
+    ctx.need(fixed and sack_const is not None, "per-option sizes in TcpOption::buffer_len")
+    rh = strip(simplify(ret_origin(F, h)))
+    adds = _nodes(rh, lambda n: n[0] == 'bin' and n[1] == 'Add')
+    got_fixed, got_sack = set(), []
+    for a in adds:
+        x, y = strip(a[2]), strip(a[3])
+        for u, v in ((x, y), (y, x)):
+            c = const_of(v)
+            if c is None:
+                continue
+            if any(l.endswith('.sack_ranges') for l in leafs(u)) and not _nodes(u, lambda n: n[0] == 'phi'):
+                got_sack.append(c)
+            elif u[0] == 'phi' or const_of(u) is not None or (u[0] in ('proj', 'field', 'agg')):
+                got_fixed.add(c)
+    ctx.need(got_fixed, "constant option sizes added in tcp::Repr::header_len")
+    want_fixed = {c for c in fixed if c > 1}
+    for c in sorted(want_fixed):
+        if c in got_fixed:
+            ctx.ok(('header_len', 'option size', c), sample=dict(option_size=c))
+        else:
+            ctx.bad(f"tcp::Repr::header_len|option-size-{c}-missing", f"TcpOption::buffer_len has an option of {c} octets that tcp::Repr::header_len never reserves: emit writes past the declared header length", body=h)
+    sack_total = got_sack[0] if got_sack else 0
+    if got_sack and all(c == sack_const for c in got_sack):
+        ctx.ok(('header_len', 'sack header'), sample=dict(sack='blocks + %d' % sack_const))
+    else:
+        ctx.bad("tcp::Repr::header_len|sack-option-header", f"tcp::Repr::header_len reserves the SACK blocks plus {sack_total} octets where TcpOption::buffer_len (and emit) need the blocks plus {sack_const}: "
+                "an ACK carrying SACK blocks is emitted past its declared header length (emit panics on a buffer of buffer_len())", body=h)
+
+
+@rule('R08.11', ['C08', 'C09', 'C01'], floor=6, clause='the length in the pseudo header is the length of the data that is summed: in verify_checksum / fill_checksum of UDP, TCP and ICMPv6 the length handed to pseudo_header and the extent of the slice handed to checksum::data are the same expression (the UDP length field for UDP, the segment / message size for the others)')
+def r08_11(ctx):
+    F = ctx.F
+    n = 0
+    for k, b in sorted(F.bodies.items()):
+        if not (k.startswith('wire::') and (k.endswith('::verify_checksum') or k.endswith('::fill_checksum'))):
+            continue
+        ph, dat = [], []
+        for x in b.calls():
+            cn = b.callee_name(x[1]) or ''
+            at = len(b.blocks[x[0]]['s'])
+            if 'checksum::pseudo_header' in cn:
+                ph.append(strip(simplify(F.origin.operand(b, x[2][-1], x[0], at))))
+            elif cn.endswith('checksum::data'):
+                dat.append(strip(simplify(F.origin.operand(b, x[2][0], x[0], at))))
+        if not ph:
+            continue
+        ctx.need(len(ph) == 1 and len(dat) == 1, f"one pseudo_header and one data call in {k}")
+
+        def uncast(n_):
+            n_ = strip(n_)
+            while n_[0] == 'cast':
+                n_ = strip(n_[1])
+            return n_
+        plen = uncast(ph[0])
+        d = dat[0]
+        while d[0] in ('ref', 'deref'):
+            d = strip(d[1])
+        if is_call(d, '::index') and len(d[2]) == 2:
+            rb = range_bounds(F, d[2][1])
+            ctx.need(rb is not None and rb[0] in ('RangeTo', 'Range'), f"extent of the summed slice in {k}")
+            ext = uncast(rb[2])
+        else:
+            # the whole buffer
+            ext = ('call', 'core::slice::<impl [T]>::len', (d,))
+        short = '::'.join(k.split('::')[1:2]) + '::' + k.rsplit('::', 1)[-1]
+        n += 1
+
+        def whole_len(x):
+            return is_call(x, '::len', nargs=1) and any(l.endswith('.buffer') for l in leafs(x)) and not any(l.startswith('C:wire::') for l in leafs(x) if l.startswith('C:'))
+        same = _same_expr(plen, ext) or (whole_len(plen) and whole_len(ext))
+        if same:
+            ctx.ok((short, 'pseudo-header length = summed extent'), sample=dict(fn=short, length=show(plen)[:60]))
+        else:
+            ctx.bad(f"{short}|pseudo-header-length-differs", f"{short} puts `{show(plen)[:60]}` into the pseudo header but sums `{show(ext)[:60]}` octets of data: a packet whose length field and "
+                    "enclosing payload differ verifies although its checksum was computed over another length (or a valid one is rejected)", body=b)
+    ctx.need(n >= 6, f"pseudo-header checksums (found {n})")
+
+
+@rule('R09.10', ['C09', 'C16', 'C02'], floor=2, clause='lookup_hardware_addr answers NoRoute (the packet is dropped by the socket egress) only for what retrying cannot mend - route() found no next hop, the interface has no source address to solicit with; every answer of the neighbor cache (not found yet, rate limited) is NeighborPending, which keeps the datagram queued')
+def r09_10(ctx):
+    F = ctx.F
+    b = ctx.method(IFI, 'lookup_hardware_addr')
+    DE = 'iface::interface::DispatchError'
+    n = 0
+    for bi, si, var in agg_sites(b, DE, ['NoRoute']):
+        n += 1
+        loc = b.blocks[bi]['s'][si][1]
+        t = b.blocks[bi]['t']
+        okc = False
+        if t[0] == 'call' and (b.callee_name(t[1]) or '').endswith('Option::<T>::ok_or') and len(t[2]) == 2 and is_place_op(t[2][1]) and t[2][1][1] == loc:
+            rcv = strip(simplify(F.origin.operand(b, t[2][0], bi, len(b.blocks[bi]['s']))))
+            cs = _calls_in(rcv)
+            if rcv[0] == 'call' and (rcv[1].endswith('InterfaceInner::route') or 'get_source_address' in rcv[1]) and not any('neighbor::Cache' in c[1] for c in cs):
+                okc = True
+        if okc:
+            ctx.ok(('lookup_hardware_addr', 'NoRoute', bi), sample=dict(no_route_from=show(rcv)[:60]))
+        else:
+            ctx.bad("lookup_hardware_addr|no-route-for-a-pending-neighbor", "lookup_hardware_addr answers NoRoute where no routing / source-address lookup failed (a neighbor-cache answer such as "
+                    "RateLimited): the socket egress drops the datagram although its neighbor resolves a moment later - a datagram for a resolvable destination is never transmitted", body=b, bb=bi)
+    ctx.need(n >= 2, f"NoRoute answers in lookup_hardware_addr (found {n})")
+
+
+@rule('R09.11', ['C09', 'C08'], floor=1, clause='a UDP datagram ends where its own length field says: udp::Packet::payload() is cut at len() (octets of the enclosing IP payload behind it are not part of the datagram and not covered by its checksum)')
+def r09_11(ctx):
+    F = ctx.F
+    ks = [k for k in F.bodies if re.match(r"wire::udp::Packet::<&'a T>::payload$", k)]
+    ctx.need(ks, "udp::Packet::payload")
+    b = F.bodies[ks[0]]
+    r = strip(simplify(ret_origin(F, b)))
+    while r[0] in ('ref', 'deref'):
+        r = strip(r[1])
+    ctx.need(is_call(r, '::index') and len(r[2]) == 2, "udp payload() as a slice of the buffer")
+    rb = range_bounds(F, r[2][1])
+    end = rb[2] if rb is not None else None
+    if end is not None and any(c[1].endswith('udp::Packet::<T>::len') for c in _calls_in(strip(simplify(end)))):
+        ctx.ok(('udp::payload', 'cut at len()'), sample=dict(fn='udp::Packet::payload', end=show(strip(simplify(end)))[:60]))
+    else:
+        ctx.bad("udp::Packet::payload|not-cut-at-length-field", "udp::Packet::payload() does not end at the UDP length field: when the enclosing IP payload is longer than the datagram (a valid packet - "
+                "check_len only demands that the buffer is at least that long, and the checksum covers len() octets) the surplus octets are delivered to the socket as data", body=b)
+
+
+@rule('R20.8', ['C20', 'C06', 'C10'], floor=2, clause='6LoWPAN IPHC: the length calculation and the emitter choose an address compression from the same octet ranges - the slices of the source / destination address that Repr::buffer_len() compares are exactly the ones set_src_address() / set_dst_address() compare (a range that differs in one of them makes the header longer or shorter than what is written into it)')
+def r20_8(ctx):
+    F = ctx.F
+
+    def ranges(b, which=None):
+        S = set()
+        for bi, bl in enumerate(b.blocks):
+            if bl['cl'] or bl['t'][0] != 'switch':
+                continue
+            for tb, lab, f in cond_facts(F, b, bi):
+                for x in f[1:]:
+                    if not (isinstance(x, tuple) and x and isinstance(x[0], str)):
+                        continue
+                    for c in _calls_in(simplify(x)):
+                        if c[1].endswith('::index') and len(c[2]) == 2:
+                            rb = range_bounds(F, c[2][1])
+                            base = strip(c[2][0])
+                            if rb and is_call(base, '::octets'):
+                                who = 'src' if any(l.endswith('.src_addr') for l in leafs(base)) else 'dst' if any(l.endswith('.dst_addr') for l in leafs(base)) else None
+                                if which is None or who == which:
+                                    S.add((rb[0], const_of(rb[1]) if rb[1] is not None else None, const_of(rb[2]) if rb[2] is not None else None))
+        return S
+    bl_ = ctx.method('wire::sixlowpan::iphc::Repr', 'buffer_len')
+    for which, setter in (('src', 'set_src_address'), ('dst', 'set_dst_address')):
+        ks = [k for k in F.bodies if k.startswith('wire::sixlowpan::iphc::Packet') and k.endswith('::' + setter)]
+        ctx.need(ks, f"iphc::Packet::{setter}")
+        a, e = ranges(bl_, which), ranges(F.bodies[ks[0]])
+        ctx.need(a and e, f"address octet ranges compared in buffer_len / {setter}")
+        if a == e:
+            ctx.ok(('iphc', which, 'same ranges'), sample=dict(address=which, ranges=sorted(f"{x[1]}..{x[2]}" for x in a)))
+        else:
+            d = sorted(f"{x[1]}..{x[2]}" for x in a ^ e)
+            ctx.bad(f"iphc::Repr::buffer_len|{which}-ranges-differ-from-{setter}", f"Repr::buffer_len() and {setter}() decide the compression of the {which} address on different octet ranges "
+                    f"({', '.join(d)}): for some addresses the declared header length differs from the octets emitted - stray or missing octets between the IPHC header and what follows", body=bl_)
